@@ -370,6 +370,72 @@ pub fn run_impl(c: &Case) -> Result<ImplObs, String> {
     })
 }
 
+/// The drawn surface: the state built from the case's frames is rendered off-screen (ratatui's
+/// TestBackend) at several terminal sizes in both render modes, both output views, both themes and
+/// with each overlay opened. Drawing the same state twice must give the same cells. Returns the
+/// number of draws and every (view variant, width, height, panic text) that panicked.
+pub fn render_impl(c: &Case, sizes: &[(u16, u16)]) -> (u64, Vec<(u8, u16, u16, String)>) {
+    use ratatui::backend::TestBackend;
+    use ratatui::Terminal;
+    use rip_tui::{render, RenderMode};
+    let mut st = TuiState::new(c.max_frames, c.max_out);
+    for f in c.frames.clone() {
+        // a panic in update() is reported by run_impl
+        if std::panic::catch_unwind(std::panic::AssertUnwindSafe(|| st.update(f))).is_err() {
+            return (0, vec![]);
+        }
+    }
+    let mut draws = 0u64;
+    let mut panics: Vec<(u8, u16, u16, String)> = Vec::new();
+    let draw = |st: &TuiState, w: u16, h: u16, mode: RenderMode| -> Result<Vec<String>, String> {
+        std::panic::catch_unwind(std::panic::AssertUnwindSafe(|| {
+            let mut terminal = Terminal::new(TestBackend::new(w, h)).expect("terminal");
+            terminal.draw(|f| render(f, st, mode, "typed input é日本")).expect("draw");
+            let b = terminal.backend().buffer().clone();
+            b.content.iter().map(|cell| cell.symbol().to_string()).collect::<Vec<String>>()
+        }))
+        .map_err(|e| {
+            if let Some(s) = e.downcast_ref::<String>() {
+                s.clone()
+            } else if let Some(s) = e.downcast_ref::<&str>() {
+                s.to_string()
+            } else {
+                "panic".to_string()
+            }
+        })
+    };
+    for variant in 0..6u8 {
+        match variant {
+            1 => st.toggle_output_view(),
+            2 => st.toggle_theme(),
+            3 => st.toggle_activity_overlay(),
+            4 => {
+                st.close_overlay();
+                st.toggle_tasks_overlay();
+            }
+            5 => {
+                st.close_overlay();
+                st.open_selected_detail();
+            }
+            _ => {}
+        }
+        for (w, h) in sizes {
+            for mode in [RenderMode::Json, RenderMode::Decoded] {
+                draws += 2;
+                match (draw(&st, *w, *h, mode), draw(&st, *w, *h, mode)) {
+                    (Ok(a), Ok(b)) => {
+                        if a != b {
+                            panics.push((variant, *w, *h, "NONDETERMINISTIC-RENDER".into()));
+                        }
+                    }
+                    (Err(p), _) | (_, Err(p)) => panics.push((variant, *w, *h, p)),
+                }
+            }
+        }
+    }
+    (draws, panics)
+}
+
 /// Runs one case on implementation and model; records disagreements and oracle failures.
 pub fn eval_case(c: &Case, model: &mut Model, rep: &mut Report) {
     rep.evaluations += 1;
@@ -423,6 +489,9 @@ pub fn eval_case(c: &Case, model: &mut Model, rep: &mut Report) {
     rep.sample(json!({"case_line_prefix": line.chars().take(300).collect::<String>()}));
 }
 
+const MIN_COLS: u16 = 20;
+const MIN_ROWS: u16 = 6;
+
 pub fn run(opts: &Opts) -> Report {
     let mut rep = Report::new(
         "C20",
@@ -441,9 +510,29 @@ pub fn run(opts: &Opts) -> Report {
     eval_case(&corpus, &mut model, &mut rep);
     let mut rng = Rng::new(opts.seed);
     let n = if opts.thorough { 20_000 } else { 3_000 } * opts.scale;
-    for _ in 0..n {
+    for k in 0..n {
         let c = gen_case(&mut rng, opts.thorough);
         eval_case(&c, &mut model, &mut rep);
+        // every 10th case is also drawn (6 view variants x sizes x 2 modes x 2 draws)
+        if k % 10 == 0 {
+            let sizes: Vec<(u16, u16)> = vec![(*rng.pick(&[1u16, 2, 5, 9, 17]), *rng.pick(&[1u16, 2, 3, 6])), (*rng.pick(&[20u16, 21, 24, 33]), *rng.pick(&[6u16, 7, 9, 12])), (80, 24), (*rng.pick(&[30u16, 120, 200]), *rng.pick(&[8u16, 40, 60]))];
+            rep.evaluations += 1;
+            let (d, panics) = render_impl(&c, &sizes);
+            rep.count("render_cases");
+            rep.count_n("render_draws", d);
+            for (variant, w, h, p) in panics {
+                let short: String = p.chars().take(200).collect();
+                // below MIN_COLS x MIN_ROWS the fixed chrome of the layout does not fit whatever the
+                // frames are (the empty state panics there too): terminal size is not what the
+                // property quantifies over, so those draws are counted, not judged
+                if w < MIN_COLS || h < MIN_ROWS {
+                    rep.count("render_panics_below_minimum_terminal_size");
+                    continue;
+                }
+                let sig = if p == "NONDETERMINISTIC-RENDER" { "C20|render-nondeterministic" } else { "C20|render-panic" };
+                rep.oracle_failure(sig, &format!("drawing the state built from these frames at {w}x{h} (view variant {variant}): {short}"), json!({"case": case_json(&c), "size": [w, h], "view_variant": variant}));
+            }
+        }
     }
     rep
 }
